@@ -187,6 +187,9 @@ class Conc:
             for i, dt in enumerate(tids):
                 if dt.startswith("verif."):
                     payload = Opaque(ex.fresh_int(name + ".op", 64), dt)
+                elif dt not in ex.prog.types:
+                    # dynamic types introduced by library models (e.g. *errors.errorString): pointer payloads
+                    payload = self._fresh_ptr(self.cinfo(key + (("dyn", dt),)), name + ".p")
                 else:
                     payload = self.fresh_shared(dt, key + (("dyn", dt),), name + ".p")
                 alts.append((int_cmp("==", sel, i + 1, 8, False), dt, payload))
@@ -668,6 +671,12 @@ class Conc:
         ex = self.ex
         if self.recording is None:
             return self.orig_alloc(kind, tid, val, site)
+        if site is not None and str(site).startswith("global:"):
+            # package-level variables first touched inside a thread are shared, never thread-local
+            o = self.orig_alloc(kind, tid, val, site)
+            o.owner = None
+            self.shared_ids.add(o.id)
+            return o
         th = self.recording
         n = self.alloc_counts.get((th.idx, site), 0)
         self.alloc_counts[(th.idx, site)] = n + 1
@@ -835,12 +844,84 @@ class Conc:
         return ex.ite(okv, rv, ex.zero(elem_tid), elem_tid), okv
 
     def initial_val(self, o):
-        v = self.initial.get(o.id)
-        if v is not None:
-            return v
-        if o.kind in ("var", "array"):
-            return self.ex.zero(o.tid)
+        # while recording, writes to shared objects are deferred, so o.val still is the initial value
         return o.val
+
+    def select(self, cases, blocking, guard, pos, elem_ts):
+        """cases: list of (dir, chanptr, sendval, elem_tid). One visible event. Go semantics: a ready case is chosen
+        (which one: solver's choice); default only when no case is ready; blocking select waits for a ready case."""
+        ex = self.ex
+        n = len(cases)
+        choice = ex.fresh_int("select", 8)
+        ex.nondets.append(("select", choice, "uint"))
+        recv_vals = []
+        recv_oks = []
+        for i, (d, ch, x, et) in enumerate(cases):
+            if d == 1:
+                self.mark_escaping(x)
+                for g, r in ch.alts:
+                    if r is not None:
+                        self.note_value(self.cls_key(ex.heap[r.obj], ()) + (("elem",),), x)
+                recv_vals.append(None)
+                recv_oks.append(None)
+            else:
+                ckey = ("chan", et)
+                for g, r in ch.alts:
+                    if r is not None:
+                        ckey = self.cls_key(ex.heap[r.obj], ()) + (("elem",),)
+                recv_vals.append((self.fresh_shared(et, ckey, "sel%d" % self.recording.idx), ckey))
+                recv_oks.append(ex.fresh_bool("selok"))
+        if blocking:
+            ex.assume(int_cmp("<", choice, n, 8, False), guard, "")
+        else:
+            ex.assume(int_cmp("<=", choice, n, 8, False), guard, "")
+
+        def apply(active, cases=cases, choice=choice, recv_vals=recv_vals, recv_oks=recv_oks):
+            any_ready = False
+            # readiness is evaluated on the state before the operation
+            ready = []
+            for i, (d, ch, x, et) in enumerate(cases):
+                rdy = False
+                for g, r in ch.alts:
+                    if r is None:
+                        continue
+                    cv = ex.heap[r.obj].val
+                    if d == 1:
+                        rdy = b_or(rdy, b_and(g, int_cmp("<", cv.len, cv.cap, 64, True)))
+                    else:
+                        rdy = b_or(rdy, b_and(g, b_or(int_cmp(">", cv.len, 0, 64, True), cv.closed)))
+                ready.append(rdy)
+                any_ready = b_or(any_ready, rdy)
+            for i, (d, ch, x, et) in enumerate(cases):
+                ci = b_and(active, int_cmp("==", choice, i, 8, False))
+                ex.assume(b_implies(ci, ready[i]), True, "")
+                if ci is False:
+                    continue
+                if d == 1:
+                    ex.chan_send(ch, x, ci)
+                else:
+                    val, okr, succ = ex.chan_try_recv(ch, ci)
+                    rv, ckey = recv_vals[i]
+                    if val is not None:
+                        miss = []
+                        e = self.veq(rv, val, miss)
+                        ex.assume(b_implies(ci, b_and(b_eq(recv_oks[i], okr), b_implies(okr, e))), True, "")
+                        for g_, kd, xx in miss:
+                            self.cand_missing.append((b_and(ci, okr, g_), kd, xx, ckey))
+            if not blocking:
+                ex.assume(b_implies(b_and(active, int_cmp("==", choice, len(cases), 8, False)), b_not(any_ready)), True, "")
+        self.add_event(guard, apply, "select(%d cases%s)" % (n, "" if blocking else ", default"), pos, visible=True)
+        idx = i_ite(int_cmp("<", choice, n, 8, False), int_convert(choice, 8, False, 64, True), wrap(-1, 64, True), 64)
+        rok = False
+        for i, (d, ch, x, et) in enumerate(cases):
+            if d != 1:
+                rok = b_or(rok, b_and(int_cmp("==", choice, i, 8, False), recv_oks[i]))
+        out = [idx, rok]
+        for i, (d, ch, x, et) in enumerate(cases):
+            if d != 1:
+                rv, _ = recv_vals[i]
+                out.append(ex.ite(b_and(int_cmp("==", choice, i, 8, False), recv_oks[i]), rv, ex.zero(et), et))
+        return TupleV(out)
 
     # ------------------------------------------------------------------ driver
     def install(self):
@@ -1030,6 +1111,15 @@ def p_run(ex, args, guard, pos):
 def p_all_done(ex, args, guard, pos):
     c = get_conc(ex)
     return b_and(*c.done_guards), guard
+
+
+def p_thread_idle(ex, args, guard, pos):
+    """the thread has executed nothing (it is still in front of its first operation, e.g. blocked there)"""
+    c = get_conc(ex)
+    i = args[0]
+    if not isinstance(i, int):
+        raise Unsupported("vThreadIdle: index must be concrete")
+    return int_cmp("==", c.final_to[i], 0, 8, False), guard
 
 
 def p_thread_done(ex, args, guard, pos):
